@@ -175,8 +175,10 @@ func (lg *ledger) postBounds(call *ssa.Call, flagIdx int) []diffC {
 	}
 	type post struct {
 		res   int
-		kind  string // nonneg | Len | len
+		kind  string // nonneg | Len | len | samelen | LenField
 		param int
+		field int    // LenField: the reflect.Value is field `field` of the struct parameter `param` (passed by value)
+		fkey  string // LenField: the callee's key of that field
 	}
 	w := lg.w
 	w.memoMu.Lock()
@@ -199,20 +201,44 @@ func (lg *ledger) postBounds(call *ssa.Call, flagIdx int) []diffC {
 			if i != flagIdx && isSliceType(g.Signature.Results().At(i).Type()) {
 				for k, prm := range g.Params {
 					if isSliceType(prm.Type()) {
-						cands = append(cands, post{i, "samelen", k})
+						cands = append(cands, post{res: i, kind: "samelen", param: k})
 					}
 				}
 			}
 			if i == flagIdx || !isIntType(g.Signature.Results().At(i).Type()) {
 				continue
 			}
-			cands = append(cands, post{i, "nonneg", -1})
+			cands = append(cands, post{res: i, kind: "nonneg", param: -1})
+			// the length of a reflect.Value kept in a field of a struct parameter (x indexed; x.rv.Len())
+			for _, b := range g.Blocks {
+				for _, ins := range b.Instrs {
+					v, isV := ins.(ssa.Value)
+					if !isV || !namedIs(v.Type(), "reflect", "Value") {
+						continue
+					}
+					if sp, fi, isField := structFieldOfParam(v); isField {
+						for k, prm := range g.Params {
+							if prm == sp {
+								dup := false
+								for _, c := range cands {
+									if c.kind == "LenField" && c.res == i && c.param == k && c.field == fi {
+										dup = true
+									}
+								}
+								if !dup {
+									cands = append(cands, post{res: i, kind: "LenField", param: k, field: fi, fkey: lgG.key(v)})
+								}
+							}
+						}
+					}
+				}
+			}
 			for k, prm := range g.Params {
 				switch {
 				case namedIs(prm.Type(), "reflect", "Value"):
-					cands = append(cands, post{i, "Len", k})
+					cands = append(cands, post{res: i, kind: "Len", param: k})
 				case isSliceType(prm.Type()) || isBasicKind(prm.Type(), types.String):
-					cands = append(cands, post{i, "len", k})
+					cands = append(cands, post{res: i, kind: "len", param: k})
 				}
 			}
 		}
@@ -254,6 +280,8 @@ func (lg *ledger) postBounds(call *ssa.Call, flagIdx int) []diffC {
 					ok = entails(facts, "0", rb, ro) // 0 - (rb+ro) <= 0
 				case "Len":
 					ok = entails(facts, rb, "Len("+lgG.key(g.Params[c.param])+")", -1-ro)
+				case "LenField":
+					ok = entails(facts, rb, "Len("+c.fkey+")", -1-ro)
 				case "len":
 					ok = entails(facts, rb, "len("+lgG.key(g.Params[c.param])+")", -1-ro)
 				}
@@ -286,6 +314,10 @@ func (lg *ledger) postBounds(call *ssa.Call, flagIdx int) []diffC {
 			out = append(out, diffC{"0", lg.key(ex), 0})
 		case "Len":
 			out = append(out, diffC{lg.key(ex), "Len(" + lg.key(call.Call.Args[ps.param]) + ")", -1})
+		case "LenField":
+			if fv := fieldValueAt(call.Call.Args[ps.param], ps.field, lg.fn); fv != nil {
+				out = append(out, diffC{lg.key(ex), "Len(" + lg.key(fv) + ")", -1})
+			}
 		case "len":
 			out = append(out, diffC{lg.key(ex), "len(" + lg.key(call.Call.Args[ps.param]) + ")", -1})
 		case "samelen":
@@ -517,6 +549,82 @@ func (w *World) fieldSetOnlyAtConstruction(nt *types.Named, idx int) bool {
 	w.postMemo[key] = ok
 	w.memoMu.Unlock()
 	return ok
+}
+
+// structFieldOfParam: v reads field fi of a struct parameter passed by value: Field(param, fi), or a load of
+// field fi of the cell the parameter was spilled into (and which nothing else is stored to).
+func structFieldOfParam(v ssa.Value) (*ssa.Parameter, int, bool) {
+	switch x := v.(type) {
+	case *ssa.Field:
+		if prm, ok := x.X.(*ssa.Parameter); ok {
+			return prm, x.Field, true
+		}
+	case *ssa.UnOp:
+		if x.Op != token.MUL {
+			return nil, 0, false
+		}
+		fa, ok := x.X.(*ssa.FieldAddr)
+		if !ok {
+			return nil, 0, false
+		}
+		al, ok := fa.X.(*ssa.Alloc)
+		if !ok {
+			return nil, 0, false
+		}
+		var prm *ssa.Parameter
+		for _, ref := range *al.Referrers() {
+			switch r := ref.(type) {
+			case *ssa.Store:
+				if r.Addr != ssa.Value(al) {
+					return nil, 0, false
+				}
+				q, isP := r.Val.(*ssa.Parameter)
+				if !isP || prm != nil {
+					return nil, 0, false
+				}
+				prm = q
+			case *ssa.FieldAddr:
+				// fields of the cell may be read; a store to a field changes what the parameter held
+				for _, r2 := range *r.Referrers() {
+					if st, isSt := r2.(*ssa.Store); isSt && st.Addr == ssa.Value(r) {
+						return nil, 0, false
+					}
+				}
+			case *ssa.UnOp, *ssa.DebugRef:
+			default:
+				return nil, 0, false
+			}
+		}
+		if prm != nil {
+			return prm, fa.Field, true
+		}
+	}
+	return nil, 0, false
+}
+
+// fieldValueAt: a value of fn that is field fi of the struct value arg (as fn reads it itself).
+func fieldValueAt(arg ssa.Value, fi int, fn *ssa.Function) ssa.Value {
+	var base ssa.Value // the cell arg was loaded from, or arg itself
+	if ld, ok := arg.(*ssa.UnOp); ok && ld.Op == token.MUL {
+		base = ld.X
+	}
+	for _, b := range fn.Blocks {
+		for _, ins := range b.Instrs {
+			switch x := ins.(type) {
+			case *ssa.Field:
+				if x.X == arg && x.Field == fi {
+					return x
+				}
+			case *ssa.UnOp:
+				if x.Op == token.MUL && base != nil {
+					if fa, ok := x.X.(*ssa.FieldAddr); ok && fa.X == base && fa.Field == fi {
+						return x
+					}
+				}
+			}
+		}
+	}
+	return nil
 }
 
 // ---- canonical keys ---------------------------------------------------------
@@ -1887,6 +1995,10 @@ func (lg *ledger) byConstruction(p pred, at *ssa.BasicBlock, ctx *proofCtx) stri
 	if _, isParam := v.(*ssa.Parameter); isParam {
 		return lg.byAllCallers(p, ctx)
 	}
+	// ... also for a field of a struct parameter passed by value
+	if _, _, isField := structFieldOfParam(v); isField {
+		return lg.byAllCallers(p, ctx)
+	}
 	return ""
 }
 
@@ -1974,6 +2086,36 @@ func (lg *ledger) paramMayBeReadOnly(v ssa.Value) bool {
 func (lg *ledger) byAllCallers(p pred, ctx *proofCtx) string {
 	param, ok := p.v.(*ssa.Parameter)
 	if !ok {
+		// a field of a struct handed over by value (x indexed; ... x.rv ...): what every call site knows about
+		// that field of the struct it passes
+		if sp, fi, isField := structFieldOfParam(p.v); isField && sp.Parent() == lg.fn && p.b == nil && ctx.depth <= 20 {
+			idx := -1
+			for i, q := range lg.fn.Params {
+				if q == sp {
+					idx = i
+				}
+			}
+			sites, complete := lg.w.callSitesAll(lg.fn)
+			if idx < 0 || len(sites) == 0 || !complete {
+				return ""
+			}
+			for _, s := range sites {
+				if idx >= len(s.args) {
+					return ""
+				}
+				fv := fieldValueAt(s.args[idx], fi, s.Parent())
+				if fv == nil {
+					return ""
+				}
+				l2 := newLedger(lg.w, s.Parent())
+				q := p
+				q.v = fv
+				if ok, _ := l2.proveAssuming(q, s.Block(), s.assume); !ok {
+					return ""
+				}
+			}
+			return fmt.Sprintf("established for that field of the struct passed at all %d call site(s) of %s", len(sites), ssaName(lg.fn))
+		}
 		return ""
 	}
 	idx := -1
